@@ -146,8 +146,10 @@ def apply_op(m: Model, op):
         m.out[name] = {q[len(s) :].lstrip("/"): v for q, v in sub.items()}
     elif k == "move_in":
         name, d = op[1], op[2]
-        if name not in m.out or d in m.tree or m.kind(parent(d)) != "d":
+        if name not in m.out or d == "" or m.kind(parent(d)) != "d":
             raise ValueError(op)
+        if d in m.tree and (m.kind(d) != m.out[name][""][0] or (m.kind(d) == "d" and m.children(d))):
+            raise ValueError(op)  # rename(2) replaces a file by a file and an EMPTY directory by a directory only
         sub = m.out.pop(name)
         for rel, v in sub.items():
             m.tree[join(d, rel) if rel else d] = v
@@ -462,6 +464,11 @@ def candidate_ops(m: Model, opts):
             for d in free:
                 if d.count("/") + depth_s < maxdepth:
                     ops.append(("move_in", name, d))
+            if opts.get("move_in_replace"):
+                # ... or onto an existing file / empty directory of the same kind, which rename(2) replaces silently
+                for d in sorted(m.tree):
+                    if d and m.kind(d) == sub[""][0] and not (m.kind(d) == "d" and m.children(d)) and d.count("/") + depth_s < maxdepth:
+                        ops.append(("move_in", name, d))
     return ops
 
 
